@@ -257,7 +257,13 @@ def g_CircularConvolve(rng):
     for xs, hs, nd in [([2, 4], [2, 3], 1), ([3, 3], [3, 2], 1), ([2, 3, 3], [2, 2, 2], 2)]:
         for center in [None, [1] * nd, [0.25] * nd]:
             add(xs, hs, nd, center)
-    # dtypes
+    # dtypes: complex filter x real input (complex output), real filter x complex input, both complex
+    for xs, hs, nd, center in [([4], [3], None, None), ([5], [2], None, [1]), ([3, 4], [2, 2], None, [1, 0]), ([2, 4], [3], 1, None),
+                               ([4], [2, 3], 1, [1]), ([2, 4], [2, 3], 1, [0.5]), ([3, 3], [2, 2], 2, [0.5, 1.0])]:
+        add(xs, hs, nd, center, xd="float64", hc=True)
+        add(xs, hs, nd, center, xd="complex128", hc=False)
+    for i in (-14, -13, -12, -2):
+        out[i]["must"] = True
     add([4], [3], None, [1], xd="complex128")
     add([4], [3], None, [0.5], xd="float64", hc=True)
     add([3, 4], [2, 2], None, [0, 1], xd="complex128", hc=True)
@@ -294,7 +300,13 @@ def g_Convolve(rng, which="Convolve"):
                 if not (ge or le):
                     continue
             out.append({"route": "init", "shape": xs, "h": enc(_dy(rng, hs)), "mode": mode, "dtype": "float64"})
-    out.append({"route": "init", "shape": [4], "h": enc(_dy(rng, [3], cplx=True)), "mode": "same", "dtype": "float64"})
+    out.append({"route": "init", "shape": [4], "h": enc(_dy(rng, [3], cplx=True)), "mode": "same", "dtype": "float64", "must": True})
+    for xs, hs in [([5], [2]), ([3, 4], [2, 2]), ([2], [4])]:
+        for mode in ("full", "valid", "same"):
+            out.append({"route": "init", "shape": xs, "h": enc(_dy(rng, hs, cplx=True)), "mode": mode, "dtype": "float64"})
+            out.append({"route": "init", "shape": xs, "h": enc(_dy(rng, hs)), "mode": mode, "dtype": "complex128"})
+    out[-1]["must"] = True
+    out[-2]["must"] = True
     out.append({"route": "init", "shape": [3, 3], "h": enc(_dy(rng, [2, 2], cplx=True)), "mode": "full", "dtype": "complex128"})
     out.append({"route": "init", "shape": [4], "h": enc(_dy(rng, [2])), "mode": "valid", "dtype": "float32"})
     for xs, hs in [([4], [2]), ([3, 4], [2, 2])]:
@@ -605,6 +617,12 @@ def g_XRayTransform3D(rng):
         for seq, angles in [("X", [[0.0]]), ("X", [[0.0], [0.5]]), ("XY", [[0.3, 0.2], [1.0, -0.7]]), ("Z", [[math.pi / 2]]), ("XYZ", [[0.1, 0.2, 0.3]])]:
             for vs, ds in [(None, None), ([1.0, 0.5, 0.75], [1.0, 2.0])]:
                 out.append({"shape": shape, "det_shape": det, "seq": seq, "angles": angles, "voxel_spacing": vs, "det_spacing": ds})
+    # more than MAX_SLICE_LEN = 10 slices along axis 0: the volume is projected slab by slab
+    for shape, det in [([11, 2, 2], [11, 2]), ([12, 2, 1], [12, 2]), ([13, 1, 2], [14, 3]), ([21, 1, 1], [21, 1])]:
+        for seq, angles in [("X", [[0.0]]), ("X", [[0.0], [0.5]]), ("Z", [[math.pi / 2]]), ("XY", [[0.3, 0.2]])]:
+            out.append({"shape": shape, "det_shape": det, "seq": seq, "angles": angles, "voxel_spacing": None, "det_spacing": None})
+    out[-16]["must"] = True  # (11,2,2), identity view: equals x.sum(axis=2)
+    out[-11]["must"] = True  # (12,2,1), two views
     return out
 
 
@@ -889,8 +907,11 @@ def iter_configs(rng, thorough, classes=None, per_class=None, on_error="skip"):
     for name in names:
         cfgs = GRIDS[name](rng)
         if not thorough and len(cfgs) > k:
-            sel = sorted(rng.choice(len(cfgs), size=k, replace=False).tolist())
-            cfgs = [cfgs[i] for i in sel]
+            # configurations flagged "must" (regression cases: mixed dtypes, multi-slab volumes, ...) are always kept
+            must = [c for c in cfgs if c.get("must")]
+            rest = [c for c in cfgs if not c.get("must")]
+            sel = sorted(rng.choice(len(rest), size=min(k, len(rest)), replace=False).tolist())
+            cfgs = must + [rest[i] for i in sel]
         for c in cfgs:
             try:
                 op = build(name, c)
